@@ -6,6 +6,9 @@
 (* input - and prints every input as one JSON line (invariant Emit):        *)
 (*   Mode = "writer": parameters for sendOpen / sendUpdate / sendWithdraw / *)
 (*                    sendKeepalive                                         *)
+(*   Mode = "history": sequences of 2..4 sends on one process/connection,   *)
+(*                    mixing valid sends, sends the writer must refuse and  *)
+(*                    sends whose connection fails after k octets           *)
 (*   Mode = "reader": octet strings for readOpen: OPEN messages from the    *)
 (*                    grammar, their mutations, other message types, and    *)
 (*                    pseudo-random strings derived from Seed               *)
@@ -18,7 +21,7 @@
 (***************************************************************************)
 EXTENDS BGPWire, Integers, Json, TLC
 
-CONSTANTS Mode,    \* "writer" | "reader"
+CONSTANTS Mode,    \* "writer" | "history" | "reader"
           Tier,    \* "quick" | "thorough"
           Seed     \* 0..65520, derived from VERIF_SEED by the driver
 
@@ -288,7 +291,56 @@ RandInputs(tier_) == {Rd(RandStream(k), 0, "random") : k \in 1..NRand}
 ReaderInputs(tier_) == BaseInputs(Tier) \cup MutInputs(Tier) \cup OtherInputs \cup RandInputs(Tier)
 
 ----------------------------------------------------------------------------
-Inputs == IF Mode = "writer" THEN WriterInputs(Tier) ELSE ReaderInputs(Tier)
+(* writer histories: what one send leaves behind must not reach the next    *)
+(* a step = the parameters of one send + failat (the connection accepts     *)
+(* that many octets of this call, then fails; -1 = never) + expect          *)
+(* ("refusable": the writer may return an error instead of a message)       *)
+St(p, failat, expect) ==
+  [x \in DOMAIN p \cup {"failat", "expect"} |->
+     IF x = "failat" THEN failat ELSE IF x = "expect" THEN expect ELSE p[x]]
+
+HNh == <<10, 20, 30, 40>>
+HU1 == Upd(24, AddrAlt, 4, A42, TRUE, TRUE, HNh, <<0, 0, 0, 100>>, 2)
+HU2 == Upd(17, AddrRand, 16, A65534, FALSE, TRUE, <<255, 0, 128, 1>>, <<0, 0, 0, 0>>, 0)
+HU3 == Upd(32, AddrOnes, 4, A1, FALSE, FALSE, HNh, <<0, 0, 0, 7>>, 63)
+HW1 == [kind |-> "withdraw", prefixes |-> <<Pfx(24, AddrAlt, 4)>>]
+HW2 == [kind |-> "withdraw", prefixes |-> <<Pfx(9, AddrOnes, 4), Pfx(32, AddrRand, 16)>>]
+HK  == [kind |-> "keepalive"]
+(* sends the encoder refuses after it has started assembling the message:   *)
+(* a large community (RFC 8092, "large:g:l1:l2" - three numbers) which the  *)
+(* native writer cannot encode, 64 communities (256 octets: needs the       *)
+(* extended-length form), own ASN above 65535 towards a 2-octet peer        *)
+HUL  == [HU1 EXCEPT !.comms = <<Comm(1), <<64512, 1, 2>>, Comm(2)>>]
+HU64 == [HU1 EXCEPT !.comms = Comms(64)]
+HUC  == Upd(24, AddrAlt, 4, A65536, FALSE, FALSE, HNh, <<0, 0, 0, 100>>, 1)
+
+HValid == {St(p, -1, "ok") : p \in {HU1, HU2, HW1, HW2, HK}}
+HRefuse == {St(p, -1, "refusable") : p \in {HUL, HU64, HUC}}
+HFail == {St(HU1, k, "ok") : k \in {0, 1, 19, 40}} \cup {St(HW1, k, "ok") : k \in {0, 20, 23}}
+         \cup {St(HK, k, "ok") : k \in {0, 10}} \cup {St(HU2, 22, "ok")}
+HDisturb == HRefuse \cup HFail
+HAll == HValid \cup HDisturb \cup {St(HU3, -1, "ok"), St(HU3, 300, "ok"), St(HUL, 30, "refusable")}
+HSmall == HValid \cup {St(HUL, -1, "refusable"), St(HU64, -1, "refusable"), St(HU1, 40, "ok"), St(HW1, 20, "ok")}
+
+Hist(steps) == [kind |-> "history", steps |-> steps]
+HistoryInputs(tier_) ==
+  {Hist(<<d, v>>) : d \in HDisturb, v \in HValid}
+  \cup {Hist(<<v, d, w>>) : v \in HValid, d \in HDisturb, w \in HValid}
+  \cup {Hist(<<d, v, w>>) : d \in HDisturb, v \in HValid, w \in HValid}
+  \cup {Hist(<<d, e, v>>) : d \in HDisturb, e \in HDisturb, v \in HValid}
+  \cup {Hist(<<v, w>>) : v \in HValid, w \in HValid}
+  \cup (IF Tier = "quick" THEN {} ELSE
+        {Hist(<<a, b>>) : a \in HAll, b \in HAll}
+        \cup {Hist(<<a, b, c>>) : a \in HAll, b \in HAll, c \in HAll}
+        \cup {Hist(<<a, b, c, d>>) : a \in HSmall, b \in HSmall, c \in HSmall, d \in HSmall})
+
+(* a step whose success can be judged: Intended is defined for it           *)
+Judgeable(p) == p.kind # "update" \/ \A k \in DOMAIN p.comms : Len(p.comms[k]) = 2
+
+----------------------------------------------------------------------------
+Inputs == CASE Mode = "writer" -> WriterInputs(Tier)
+            [] Mode = "history" -> HistoryInputs(Tier)
+            [] OTHER -> ReaderInputs(Tier)
 
 Init == inp \in Inputs
 Next == FALSE /\ inp' = inp
@@ -297,12 +349,21 @@ Next == FALSE /\ inp' = inp
 Emit == PrintT(ToJson(inp))
 
 (* role A                                                                   *)
-WriterDesign ==
-  (inp.kind # "read") =>
-     LET b == Encode(inp)  w == WidthOf(inp)  d == Decode(b) IN
-     /\ WellFormed(d, w)
-     /\ Content(d, w) = Intended(inp)
-     /\ Len(b) = HdrLen(b)
+DesignOK(p) ==
+  LET b == Encode(p)  w == WidthOf(p)  d == Decode(b) IN
+  /\ WellFormed(d, w)
+  /\ Content(d, w) = Intended(p)
+  /\ Len(b) = HdrLen(b)
+
+WriterDesign == (inp.kind \notin {"read", "history"}) => DesignOK(inp)
+
+(* every judgeable step of a history has a defined intended message (incl.  *)
+(* the 64-community UPDATE, which needs the extended-length attribute form) *)
+(* and every history of the quick tier offers something to judge            *)
+HistoryDesign ==
+  (inp.kind = "history") =>
+     /\ \A k \in DOMAIN inp.steps : Judgeable(inp.steps[k]) => DesignOK(inp.steps[k])
+     /\ (Tier = "quick") => \E k \in DOMAIN inp.steps : Judgeable(inp.steps[k]) /\ inp.steps[k].failat = -1
 
 ReaderDesign ==
   (inp.kind = "read") =>
